@@ -261,15 +261,6 @@ end
 
 /-! ### document order, for hosts that keep what they are handed (`Parent` nodes; childless leaves) -/
 
-mutual
-/-- every pushed node is a `Parent` that keeps its children, or a leaf without children; no terms -/
-def plain : DNode → Bool
-  | .mk _ _ _ kind _ cs => (kind == .parent || (kind == .leaf && cs.isEmpty)) && plainL cs
-def plainL : List DNode → Bool
-  | [] => true
-  | d :: ds => plain d && plainL ds
-end
-
 def noTerm (ps : List T) : Prop := ∀ p ∈ ps, p.kind ≠ .term
 
 theorem attachAllT_parent_ids (ps : List T) (top : T) (hk : top.kind = .parent) (hp : noTerm ps) :
